@@ -600,7 +600,12 @@ func (fx *FnCtx) slice(x *ssa.Slice) {
 			mx = fx.val(x.Max)
 		}
 		fx.oblig("safe.slice", and(app("Bool", "<=", zero, lo), app("Bool", "<=", lo, hi), app("Bool", "<=", hi, mx), app("Bool", "<=", mx, cp)), "slice bounds", nil, "")
-		fx.define(x, app("Slice", "mk_slice", app("Int", "s_arr", s), app("Int", "+", app("Int", "s_off", s), lo), app("Int", "-", hi, lo), app("Int", "-", mx, lo)))
+		r := fx.define(x, app("Slice", "mk_slice", app("Int", "s_arr", s), app("Int", "+", app("Int", "s_off", s), lo), app("Int", "-", hi, lo), app("Int", "-", mx, lo)))
+		if x.Low != nil {
+			// element k of the view s[lo:] is element lo+k of s: a consequence of eidx's definition, stated with a
+			// trigger on the view so that quantified facts about s (loop invariants) are instantiated for the view
+			fx.assume(Term{fmt.Sprintf("(forall ((k Int)) (! (= (eidx (s_off %s) k) (eidx (s_off %s) (+ %s k))) :pattern ((eidx (s_off %s) k))))", r.S, s.S, lo.S, r.S), "Bool"})
+		}
 	case *types.Pointer:
 		at := u.Elem().Underlying().(*types.Array)
 		l := fx.resolveAddr(x.X)
